@@ -21,6 +21,7 @@ func VerifH_C16_Fallback() {
 	var tcpQ []byte
 	udpFail, tcpFail := verifrt.Bool("udp.fail"), verifrt.Bool("tcp.fail")
 	tc := verifrt.Bool("udp.tc")
+	tcpTC := verifrt.Bool("tcp.tc") // a TCP reply can carry TC as well (answer > 64 KiB, broken middlebox): it still is the outcome
 	verifrt.Redirect("(*github.com/IrineSistiana/mosproxy/internal/upstream/transport.PipelineTransport).ExchangeContext",
 		func(t *transport.PipelineTransport, ctx context.Context, q []byte) (*dnsmsg.Msg, error) {
 			udpCalls++
@@ -40,8 +41,11 @@ func VerifH_C16_Fallback() {
 			if tcpFail {
 				return nil, errVLeg
 			}
+			verifrt.Assert(tcpCalls <= 1, "a truncated UDP reply triggers exactly one TCP exchange")
 			tcpMsg = dnsmsg.NewMsg()
 			tcpMsg.Response = true
+			tcpMsg.Truncated = tcpTC
+			tcpMsg.RCode = 7 // tells the TCP reply from the UDP one
 			tcpMsg.ID = verifrt.U16("tcp.id")
 			return tcpMsg, nil
 		})
@@ -59,11 +63,11 @@ func VerifH_C16_Fallback() {
 		verifrt.Reach("fallback")
 		verifrt.Assert(tcpCalls == 1, "a truncated UDP reply triggers exactly one TCP exchange")
 		verifrt.Assert(verifrt.EqBytes(tcpQ, q), "the same query is re-sent over TCP")
-		verifrt.Assert(r == nil || !r.Truncated, "the truncated UDP message is never returned")
+		verifrt.Assert(r == nil || r.RCode == 7, "the truncated UDP message is never returned")
 		if tcpFail {
 			verifrt.Assert(r == nil && err != nil, "TCP failure is the outcome")
 		} else {
-			verifrt.Assert(err == nil && r == tcpMsg, "the TCP reply is the outcome")
+			verifrt.Assert(err == nil && r == tcpMsg && r.Truncated == tcpTC, "the TCP reply is the outcome, whatever it says")
 		}
 	}
 }
